@@ -492,9 +492,17 @@ def per_axis_interpolator(f, coord_vecs, interp):
     def per_axis_interp(x, out=None):
         """Interpolating function with vectorization."""
         x, x_type, x_is_scalar = _check_interp_input(x, f)
-        interpolator = _PerAxisInterpolator(
-            coord_vecs, f, interp=interp, input_type=x_type
-        )
+        if all(s == 'nearest' for s in interp):
+            # Pure nearest neighbor interpolation needs no arithmetic on the
+            # values, so it also works for integer or string data. The
+            # index-based interpolator returns the same node values.
+            interpolator = _NearestInterpolator(
+                coord_vecs, f, input_type=x_type
+            )
+        else:
+            interpolator = _PerAxisInterpolator(
+                coord_vecs, f, interp=interp, input_type=x_type
+            )
 
         res = interpolator(x, out=out)
         if x_is_scalar:
